@@ -14,6 +14,9 @@ def Contig (s : SmState) : Prop :=
 /-- no wrap-around inside the retained window (numbers can then be compared as naturals) -/
 def NoWrap (s : SmState) : Prop := s.queue.length ≤ s.sentNr.toNat
 
+instance (s : SmState) : Decidable (NoWrap s) := by unfold NoWrap; infer_instance
+instance (s : SmState) : Decidable (Contig s) := by unfold Contig; infer_instance
+
 /-- the XEP-0198 handler is waiting for the answer to `<enable/>` / `<resume/>` -/
 def smPending (c : Conn) : Bool := c.handlers.any fun h => h.fn = .sys .sm
 
